@@ -230,6 +230,7 @@ func cmdFunc(args []string) int {
 	dump := fs.String("dump", "", "write the SMT query of obligations whose name contains this string to ./dump_<n>.smt2")
 	prop := fs.String("property", "", "property filter for tagged clauses")
 	policy := fs.String("policy", "", "call policy: shallow|lock")
+	nosolve := fs.Bool("nosolve", false, "only generate obligations")
 	fs.Parse(args)
 	w, err := loadWorld()
 	if err != nil {
@@ -253,6 +254,14 @@ func cmdFunc(args []string) int {
 			start := time.Now()
 			rep := verifyFunc(w.prog, w.specs, w.funcs[n], verifyOpts{nopanic: *nopanic, lockDiscipline: *lock, lockOnly: *lock, property: *prop, callPolicy: *policy})
 			fmt.Printf("== %s: %s %s (%d obligations, gen %.2fs)\n", n, rep.Status, rep.Err, len(rep.Obls), time.Since(start).Seconds())
+			if *nosolve {
+				kinds := map[string]int{}
+				for _, o := range rep.Obls {
+					kinds[o.Kind]++
+				}
+				fmt.Printf("   kinds: %v\n", kinds)
+				continue
+			}
 			res := solveAll(rep.Obls, *timeout, 0, false, 8)
 			for i, s := range res {
 				ok := s.res.Status == "unsat"
